@@ -84,8 +84,17 @@ def _post(meth, state):
             if isinstance(out, Raise):
                 cl.append(("an exception of the operation is propagated unchanged", "PC", engine.to_val(st, out.exc) == py_op_exc(k, ops[0].args[0], ops[0].args[1]), ["C17"]))
             else:
-                cl.append(("the value of the operation on the result is returned unchanged", "PC",
-                           z3.Or(engine.to_val(st, out) == py_op(k, ops[0].args[0], ops[0].args[1]), z3.BoolVal(op == "In")), ["C17"]))
+                if op == "In":
+                    # `item in result`: the interpreter turns the operation's answer into a bool; the proxy must hand back exactly that
+                    # bool (not its negation)
+                    tr = [e for e in st.trace if e.kind == "truth"]
+                    ov = engine.to_val(st, out)
+                    cl.append(("`item in proxy` is the truth of `item in result`", "PC",
+                               z3.And(z3.BoolVal(len(tr) == 1), tr[0].args[0] == py_op(k, ops[0].args[0], ops[0].args[1]) if tr else False,
+                                      ov == Val.boolv(tr[0].ret) if tr else False), ["C17"]))
+                else:
+                    cl.append(("the value of the operation on the result is returned unchanged", "PC",
+                               engine.to_val(st, out) == py_op(k, ops[0].args[0], ops[0].args[1]), ["C17"]))
         return cl
     return post
 
